@@ -118,6 +118,43 @@ def funDecls (te : C.TyEnv) : Stmt → Option C.TyEnv
 def funShapeOk (ps : List (String × Ty)) (body : Stmt) : Bool :=
   body.tupleFree && body.assigned.all (fun x => (ps.lookup x).isNone) && (ps.map (·.1)).Nodup
 
+/-! W6, which definition of a helper is emitted.  The parser parses a `def` once with ALL-INT parameters (the "primary" parse); a call
+    whose TYPE it infers — `x = f(args)`: the right-hand side of an assignment — requests the signature `args.map infer` and the body
+    is parsed again for it; a call statement `f(args)` requests nothing.  The emitted definitions are the requested ones, or the
+    primary one when there is no request.  The model follows the case of ONE emitted definition per helper:
+    `Prog.sigsOk` — a helper that is never called with a target has all-int parameters; `funCallsStable` — the argument types of the
+    value calls inside a body do not depend on whether the body is parsed under all-int or under the requested parameter types (so the
+    primary parse requests nothing else from the helpers it calls); `callSiteOk` — every call passes exactly the parameter types. -/
+
+/-- helpers called with a target (`x = f(…)`) in the statement; the carried bodies are not entered -/
+def Stmt.valueCalls : Stmt → List String
+  | .seq a b => a.valueCalls ++ b.valueCalls
+  | .ifs _ t e => t.valueCalls ++ e.valueCalls
+  | .whileLoop _ b => b.valueCalls
+  | .forRange _ _ b => b.valueCalls
+  | .call (some _) f _ _ _ _ _ _ => [f]
+  | _ => []
+
+/-- the arguments of those calls -/
+def Stmt.valueCallArgs : Stmt → List Expr
+  | .seq a b => a.valueCallArgs ++ b.valueCallArgs
+  | .ifs _ t e => t.valueCallArgs ++ e.valueCallArgs
+  | .whileLoop _ b => b.valueCallArgs
+  | .forRange _ _ b => b.valueCallArgs
+  | .call (some _) _ _ _ _ _ _ args => args
+  | _ => []
+
+def Stmt.loopVars : Stmt → List String
+  | .seq a b => a.loopVars ++ b.loopVars
+  | .ifs _ t e => t.loopVars ++ e.loopVars
+  | .whileLoop _ b => b.loopVars
+  | .forRange i _ b => i :: b.loopVars
+  | _ => []
+
+def Prog.sigsOk (p : Prog) : Bool :=
+  let called := p.pre.valueCalls ++ (match p.body with | some b => b.valueCalls | none => []) ++ p.helpers.flatMap (·.body.valueCalls)
+  p.helpers.all fun h => h.ps.all (·.2 == .int) || called.contains h.name
+
 /-- the return type of the emitted definition: inferred from the expression of the trailing `return` (`void` when there is none; the
     model's `rt` is then unused) -/
 def retTy (te' : C.TyEnv) : Option Expr → Ty
@@ -132,6 +169,15 @@ def callSiteOk (te : C.TyEnv) (ps : List (String × Ty)) (x : Option String) (re
      | none, _ => true
      | some x, some _ => te.lookup x == some rt
      | some _, none => false)
+
+/-- the value calls of a body request the same signatures under the all-int parse as under the declarations `te'` of the emitted
+    definition (`for` variables are `int` in both) -/
+def funCallsStable (ps : List (String × Ty)) (body : Stmt) (te' : C.TyEnv) : Bool :=
+  match funDecls (ps.map fun q => (q.1, Ty.int)) body with
+  | none => false
+  | some teP =>
+    let lv : C.TyEnv := body.loopVars.map fun i => (i, Ty.int)
+    body.valueCallArgs.all fun e => inferTy (lv ++ teP) e == inferTy (lv ++ te') e
 
 /-- nested statements: every assigned name must already be declared -/
 def trNested (te : C.TyEnv) (inMain : Bool) : Nat → Stmt → Except TrErr Stmt
@@ -164,7 +210,7 @@ def trNested (te : C.TyEnv) (inMain : Bool) : Nat → Stmt → Except TrErr Stmt
       | none => .error .outsideFragment
       | some te' => do
         let body' ← trNested te' false 0 body
-        if callSiteOk te ps x ret (retTy te' ret) args = true then
+        if (callSiteOk te ps x ret (retTy te' ret) args && funCallsStable ps body te') = true then
           pure (.call x f ps (te'.drop ps.length) (retTy te' ret) body' ret args)
         else .error .outsideFragment
     else .error .outsideFragment
@@ -203,7 +249,8 @@ def trHelper (h : Helper) : Except TrErr Helper :=
     | none => .error .outsideFragment
     | some te' => do
       let body' ← trNested te' false 0 h.body
-      pure { h with ls := te'.drop h.ps.length, rt := retTy te' h.ret, body := body' }
+      if funCallsStable h.ps h.body te' = true then pure { h with ls := te'.drop h.ps.length, rt := retTy te' h.ret, body := body' }
+      else .error .outsideFragment
   else .error .outsideFragment
 
 def trHelpers : List Helper → Except TrErr (List Helper)
@@ -221,7 +268,7 @@ def trCore (p : Prog) : Except TrErr CProg := do
 
 /-- tuple statements must carry the parser's counter (`Prog.renum` establishes it; the driver applies it to every program read) -/
 def withHelpers (p : Prog) (core : Except TrErr CProg) : Except TrErr CProg :=
-  if p.resolved then do
+  if (p.resolved && p.sigsOk) = true then do
     let hs ← trHelpers p.helpers
     let c ← core
     pure { c with helpers := hs }
